@@ -232,6 +232,68 @@ func runC03(c *Ctx) {
 			c.Ob("C03-D3", name+"/timeoutFunc-no-leak", tf.Pos(), len(tli.LeakAtReturn) == 0, "locks left held by the timeout closure")
 		}
 	}
+	// the purge removes ALL buffered frames of the timed-out ack id (a binary packet has several frames with one id)
+	{
+		rf := p.Fn("sio", "clientSocket.registerAckHandler")
+		for _, cs := range CallsTo(Calls(rf), `sio\.newAckHandlerWithTimeout`) {
+			cl, ok := cs.Arg(2).(*ssa.MakeClosure)
+			if !ok {
+				continue
+			}
+			tf := cl.Fn.(*ssa.Function)
+			tli := Locks(tf)
+			sts := findInstrs(tf, storePred(`s\.sendBuffer`))
+			if len(sts) == 0 {
+				c.Ob("C03-D3", "sio.clientSocket.registerAckHandler/purge", tf.Pos(), false, "the timeout closure never purges s.sendBuffer: frames of a timed-out emit would still be sent on connect")
+			}
+			for _, st := range sts {
+				v := st.(*ssa.Store).Val
+				t := Term(v)
+				okAll := false
+				detail := "s.sendBuffer = " + t
+				if call, isCall := v.(*ssa.Call); isCall && strings.HasPrefix(calleeName(&call.Call), "slices.DeleteFunc") && Term(call.Call.Args[0]) == "s.sendBuffer" {
+					// predicate: true only for frames carrying this id
+					if pc, isCl := call.Call.Args[1].(*ssa.MakeClosure); isCl {
+						pf := pc.Fn.(*ssa.Function)
+						okAll = true
+						for _, b := range pf.Blocks {
+							ret, isRet := b.Instrs[len(b.Instrs)-1].(*ssa.Return)
+							if !isRet || len(ret.Results) != 1 {
+								continue
+							}
+							rt := Term(ret.Results[0])
+							if rt == "false" {
+								continue
+							}
+							if rt == "true" {
+								if !HasGuard(ret, `\(\*packet\.ackID == id\)==true`) {
+									okAll = false
+									detail = "the purge predicate returns true without the guard `*packet.ackID == id`: it would drop frames of other packets"
+								}
+							} else if !strings.Contains(rt, "*packet.ackID == id") {
+								okAll = false
+								detail = "the purge predicate returns " + rt + ", not a test of this ack id"
+							}
+						}
+					}
+				} else if ph, isPhi := v.(*ssa.Phi); isPhi && inLoop(ph.Block()) {
+					okAll = true // filter loop building the kept slice
+				} else if inLoop(st.Block()) {
+					okAll = true // element-wise filter in a loop over the buffer (delete-inside-range is checked separately)
+				}
+				if !okAll && !strings.Contains(detail, "predicate") {
+					detail += " — this removes at most one frame, but every frame of a multi-frame (binary) packet carries the same ack id (see _sendBuffers); the remaining attachment frames would be flushed as orphans on connect"
+				}
+				c.Ob("C03-D3", "sio.clientSocket.registerAckHandler/purge-all-frames", st.Pos(), okAll && tli.HoldsW(st, "s.sendBufferMu"), detail+"; held="+tli.Held(st).String())
+			}
+		}
+		// every frame of one packet is tagged with the same ack id
+		sb := p.Fn("sio", "clientSocket._sendBuffers")
+		fv := p.Field("sio", "sendBufferItem", "ackID")
+		tag := findInstrs(sb, fieldStorePred(fv))
+		okTag := len(tag) == 1 && Term(tag[0].(*ssa.Store).Val) == "ackID" && inLoop(tag[0].Block())
+		c.Ob("C03-D3", "sio.clientSocket._sendBuffers/frames-tagged", sb.Pos(), okTag, "every buffered frame must be tagged with the emit's ack id (the purge finds them by it)")
+	}
 	delInRangeRule(c, "C03-D3", "sio", []string{"client_socket.go", "server_socket.go", "handler.go"}, 0)
 	{
 		fn := p.Fn("sio", "newAckHandlerWithTimeout")
